@@ -40,6 +40,8 @@ func genC20(o *vcoq.Out, r *vcoq.Rand, tier string) error {
 	g.enterLeave()
 	g.meter()
 	g.publication()
+	g.constructors()
+	g.vendStore()
 	return nil
 }
 
